@@ -47,6 +47,18 @@ def evaluate(case, out):
         return
     feats = set()
     judged = 0
+    if case.get("pool_workflow", True) and any(c["pool"] for c in case["cards"]):
+        # the population under audit: after pool_contests + add_pool_contests every pooled CVR lists every contest that any
+        # pooled CVR of its tally pool lists (otherwise cards of a pooled batch silently drop out of the audit)
+        need = {}
+        for c in case["cards"]:
+            if c["pool"]:
+                need.setdefault(repr(c["tally_pool"]), set()).update(c["votes"].keys())
+        for c, lib in zip(case["cards"], cvrs):
+            if c["pool"]:
+                missing = need[repr(c["tally_pool"])] - set(lib.votes.keys())
+                if not out.expect(not missing, "pooled-cvr-does-not-list-a-contest-of-its-pool", lambda: (c["id"], c["tally_pool"], sorted(missing))):
+                    return
     if any(c.phantom for c in cvrs):
         feats.add("phantom-cvr")
     if any(c.pool for c in cvrs):
